@@ -203,35 +203,79 @@ def run(ctx):
     ctx.floor("unit-sinks", total, 14)
 
     # ---------------- R2 mirror table --------------------------------------
+    # The mirrored defect is a function of the set of defect flags of the location.  The loop body is composed into one
+    # expression and evaluated over all 2^6 flag sets (an exact finite abstraction: the code tests the flags with `&` only).
+    import itertools
     rc = s.func("AnnotatedSequence.reverse_complement")
-    mirror = {}
-    for st in stmts(rc):
-        if isinstance(st, ast.If):
-            src_ = [defect(x) for x in ast.walk(st.test) if defect(x)]
-            dst = [defect(x) for b in st.body for x in ast.walk(b) if defect(x)]
-            if len(src_) == 1 and len(dst) == 1:
-                mirror[src_[0]] = dst[0]
-                # flags combine freely: every test must be independent of the others
-                ctx.ob("R2.mirror-tests-independent", ANN, "AnnotatedSequence.reverse_complement",
-                       f"test of {src_[0]} has no else/elif", not st.orelse,
-                       f"the test of {src_[0]} is chained with else/elif to another defect test: a location "
-                       "carrying both defects loses one of them (reverse complement twice no longer "
-                       "restores the original)", st.lineno)
+    loc_loops = [lp for lp in ast.walk(rc) if isinstance(lp, ast.For) and isinstance(lp.target, ast.Name)
+                 and any(isinstance(c, ast.Call) and call_name(c) == "Location" for c in ast.walk(lp))
+                 and not any(isinstance(x, ast.For) for b in lp.body for x in ast.walk(b))]
+    ctx.need(len(loc_loops) == 1, "location loop of reverse_complement")
+    lv = loc_loops[0].target.id
+    benv = summarize_block(loc_loops[0].body).env
+    loc_call = next(c for c in ast.walk(loc_loops[0]) if isinstance(c, ast.Call) and call_name(c) == "Location")
+    darg = loc_call.args[3] if len(loc_call.args) > 3 else next((k.value for k in loc_call.keywords if k.arg == "defect"), None)
+    ctx.need(darg is not None, "defect argument of the mirrored Location")
+    from ..exprnorm import subst
+    dexpr = subst(darg, benv)
+
+    class _Unknown(Exception):
+        pass
+
+    def ev(e, flags):
+        if isinstance(e, ast.IfExp):
+            return ev(e.body, flags) if truth(e.test, flags) else ev(e.orelse, flags)
+        if isinstance(e, ast.BinOp) and isinstance(e.op, ast.BitOr):
+            return ev(e.left, flags) | ev(e.right, flags)
+        d = defect(e)
+        if d is not None:
+            return frozenset() if d == "NONE" else frozenset([d])
+        if isinstance(e, ast.Attribute) and e.attr == "defect" and isinstance(e.value, ast.Name) and e.value.id == lv:
+            return frozenset(flags)
+        raise _Unknown(ast.unparse(e)[:60])
+
+    def truth(t, flags):
+        if isinstance(t, ast.BinOp) and isinstance(t.op, ast.BitAnd):
+            parts = [t.left, t.right]
+            d = [defect(p_) for p_ in parts if defect(p_)]
+            if len(d) == 1 and any(isinstance(p_, ast.Attribute) and p_.attr == "defect" for p_ in parts):
+                return d[0] in flags
+        if isinstance(t, ast.UnaryOp) and isinstance(t.op, ast.Not):
+            return not truth(t.operand, flags)
+        if isinstance(t, ast.BoolOp):
+            vs = [truth(v, flags) for v in t.values]
+            return all(vs) if isinstance(t.op, ast.And) else any(vs)
+        raise _Unknown(ast.unparse(t)[:60])
+
+    expect = {"MISS_LEFT": "MISS_RIGHT", "MISS_RIGHT": "MISS_LEFT", "BEYOND_LEFT": "BEYOND_RIGHT", "BEYOND_RIGHT": "BEYOND_LEFT"}
+    table = {}
+    try:
+        for r_ in range(len(members) + 1):
+            for combo in itertools.combinations(sorted(members), r_):
+                table[frozenset(combo)] = ev(dexpr, frozenset(combo))
+    except _Unknown as ex:
+        raise AnalysisError(f"anchor vanished: mirrored defect is not a flag-wise function of loc.defect ({ex})")
+    ctx.count("mirror-flag-sets", len(table))
+    carried = sorted(m for m in expect if m in table[frozenset([m])])
+    ctx.ob("R2.mirror-starts-empty", ANN, "AnnotatedSequence.reverse_complement", "no defect -> no defect; sided defects are not carried over",
+           table[frozenset()] == frozenset() and not carried,
+           f"the mirrored defect must start from NONE: no defect gives {sorted(table[frozenset()])}, and {carried} survive unmirrored", rc.lineno)
+    single_ok = True
     for m in members:
-        ctx.ob("R2.defect-mirrored", ANN, "AnnotatedSequence.reverse_complement", f"{m} -> {mirror.get(m)}",
-               m in mirror, f"defect {m} is dropped by reverse_complement", rc.lineno)
-    expect = {"MISS_LEFT": "MISS_RIGHT", "MISS_RIGHT": "MISS_LEFT", "BEYOND_LEFT": "BEYOND_RIGHT",
-              "BEYOND_RIGHT": "BEYOND_LEFT"}
-    for a, b in sorted(mirror.items()):
-        want = expect.get(a, a)
-        ctx.ob("R2.mirror-involution", ANN, "AnnotatedSequence.reverse_complement", f"{a} -> {b}",
-               mirror.get(b) == a and b == want,
-               f"{a} is mapped to {b}; a left/right defect must map to its mirror image and the map "
-               "must undo itself when applied twice", rc.lineno)
-    # starts from NONE
-    ctx.ob("R2.mirror-starts-empty", ANN, "AnnotatedSequence.reverse_complement", "rev_loc_defect = Defect.NONE",
-           any(isinstance(st, ast.Assign) and defect(st.value) == "NONE" for st in stmts(rc)),
-           "the mirrored defect must start from NONE", rc.lineno, nontrivial=False)
+        got = table[frozenset([m])] - table[frozenset()] - (frozenset([m]) if m in expect else frozenset())
+        want = frozenset([expect.get(m, m)])
+        ctx.ob("R2.defect-mirrored", ANN, "AnnotatedSequence.reverse_complement", f"{m} -> {sorted(got)}", bool(got),
+               f"defect {m} is dropped by reverse_complement", rc.lineno)
+        ok1 = got == want
+        single_ok = single_ok and ok1
+        ctx.ob("R2.mirror-involution", ANN, "AnnotatedSequence.reverse_complement", f"{m} -> {sorted(table[frozenset([m])])}", table[frozenset([m])] - table[frozenset()] == want,
+               f"{m} is mapped to {sorted(got)}; a left/right defect must map to its mirror image ({sorted(want)}) so that the map undoes itself", rc.lineno)
+    bad = [fs for fs, out in table.items() if out != frozenset(expect.get(x, x) for x in fs)]
+    ctx.ob("R2.mirror-tests-independent", ANN, "AnnotatedSequence.reverse_complement", f"{len(table)} flag sets mirrored flag by flag",
+           not (single_ok and bad),
+           f"single defects are mirrored correctly but the combination {sorted(bad[0]) if bad else ''} becomes "
+           f"{sorted(table[bad[0]]) if bad else ''}: the tests are not independent (reverse complement twice no longer restores the original)",
+           rc.lineno)
     # strands swapped
     swap = {}
     for st in stmts(rc):
